@@ -305,6 +305,29 @@ def _case_flat_reader(case, ctx):
             if rd.n_samples != n:
                 ctx.violation('bad_reader_chunk_bounds', sub, 'n_samples %r != %d' % (rd.n_samples, n))
             _check_iter(rd, A, sub, ctx, cache=True)
+            if cs >= 3 and len(sizes) >= 2:
+                # the reader handed over as an array-like object to a second reader with a shorter chunk length
+                cs2 = max(1, cs // 2)
+                rw = call(get_ephys_reader, rd, sample_rate=cs2 / 600.)
+                if rw.ok:
+                    ctx.count(1, cell=('flat_reader', 'wrapped_as_array'))
+                    m2 = _check_bounds(rw.value.chunk_bounds, [n], cs2)
+                    if m2:
+                        ctx.violation('bad_reader_chunk_bounds', dict(sub, wrapped_with_chunk=cs2), 'array reader over this reader (chunk length %d): %s' % (cs2, m2))
+                    ri = call(lambda: [(int(a), int(b)) for a, b in rw.value.iter_chunks()])
+                    if ri.ok and _tiles(ri.value, n):
+                        ctx.violation('iter_chunks_not_tiling', dict(sub, wrapped_with_chunk=cs2), 'array reader over this reader: %s' % _tiles(ri.value, n))
+            # history: the caller extends the chunk_bounds list it was given; a NEW reader of the same length and rate must
+            # still get its own, correct grid
+            ra = call(get_ephys_reader, A.copy(), sample_rate=cs_f / 600.)
+            if ra.ok and isinstance(ra.value.chunk_bounds, list):
+                ra.value.chunk_bounds.extend([n + 10, n + 18])
+                rb = call(get_ephys_reader, A[::-1].copy(), sample_rate=cs_f / 600.)
+                if rb.ok:
+                    ctx.count(1, cell=('array_reader', 'after_caller_extended_bounds'))
+                    m3 = _check_bounds(rb.value.chunk_bounds, [n], cs)
+                    if m3:
+                        ctx.violation('bad_reader_chunk_bounds', dict(sub, history='bounds list of an earlier reader extended'), 'new array reader: %s' % m3)
     finally:
         shutil.rmtree(d, ignore_errors=True)
 
